@@ -53,6 +53,9 @@ func init() {
 			// the decoded result over the real driver, which handles the received bytes before the decoder sees them (in debug mode it
 			// also dumps them): every result carries the marker of the accepted datagram (loopback layer of C03's workload)
 			b = append(b, Batch{Mode: "loopback", RunAs: "C03", Keys: []string{"foreign-content", "panic"}, Timeout: 20 * time.Minute, Procs: 8})
+			// status datagrams that arrive unasked (events, also with the v6.62 protocol id 0x19) are decoded by the same rules: the
+			// content oracle of C10's listener workload
+			b = append(b, Batch{Mode: "plain", RunAs: "C10", Keys: []string{"event:content", "event:lost", "from-invalid-datagram", "panic"}, Timeout: 30 * time.Minute, Procs: 4})
 			if tier == "thorough" {
 				return append(b, zoneBatches(0, "tz", 20*time.Minute)...)
 			}
@@ -105,6 +108,9 @@ func init() {
 		Plan: func(tier string) []Batch {
 			b := same(n(tier, 4, 8), Batch{Mode: "utc-deep", Timeout: 20 * time.Minute})
 			b = append(b, same(n(tier, 2, 4), Batch{Mode: "race", Race: true, Timeout: 20 * time.Minute, Procs: 8})...)
+			// event messages as the listener decodes them while datagrams arrive back to back: each delivered status is the decoding
+			// of its own datagram (the listener workload of C10)
+			b = append(b, Batch{Mode: "plain", RunAs: "C10", Keys: []string{"event:content", "event:lost", "event:duplicate", "panic"}, Timeout: 30 * time.Minute, Procs: 4})
 			return append(b, zoneBatches(n(tier, 40, 0), "tz", 10*time.Minute)...)
 		}}
 }
@@ -172,7 +178,10 @@ func init() {
 			b = append(b, same(n(tier, 1, 2), Batch{Mode: "loopback", RunAs: "C17", Keys: []string{"result-aliases-buffer", "event-from-another-datagram", "event-changes-after-delivery", "panic"}, Timeout: 20 * time.Minute, Procs: 4})...)
 			// "datagrams of the wrong length or with another serial number are ignored and the call keeps waiting for S until its deadline":
 			// a flood of such datagrams must not move the deadline (the flood phases of C09's workload)
-			return append(b, Batch{Mode: "flood", RunAs: "C09", Keys: []string{"late-return", "hang", "unexpected-success", "panic"}, Timeout: 20 * time.Minute, Procs: 8})
+			b = append(b, Batch{Mode: "flood", RunAs: "C09", Keys: []string{"late-return", "hang", "unexpected-success", "panic"}, Timeout: 20 * time.Minute, Procs: 8})
+			// "keeps waiting for S until its deadline": the deadline is the call's own - also when the call first had to wait its turn for a
+			// fixed bind port (fixed-port rounds of C09's workload)
+			return append(b, Batch{Mode: "port-queue", RunAs: "C09", Keys: []string{"early-timeout-after-queueing", "panic"}, Timeout: 20 * time.Minute, Procs: 8})
 		}}
 }
 
